@@ -10,7 +10,7 @@ ID = 'C11'
 def config(tier):
     return {
         'level': 'exploration',
-        'cases': 1200 if tier == 'quick' else 100000,
+        'cases': 6000 if tier == 'quick' else 100000,
         'budget_s': 45 if tier == 'quick' else 560,
         'floors': {'cases': 300, 'outward_links_purged': 300,
                    'mutating_events_checked': 3000, 'canaries_checked': 600},
